@@ -230,6 +230,7 @@ type run struct {
 	depth       int
 	srvWroteEst bool // the server's write of an established envelope was accepted by its connection (cleartext only)
 	vanished    bool
+	srvConn     *rt.Conn
 }
 
 // ---- in-process scripted peer -----------------------------------------------------------
@@ -413,6 +414,7 @@ func body(variant string, cfgs []Config, depth int, allowTLSRefusal bool) func(x
 			go func() { _ = srv.ListenAndServe() }()
 			conn = pl.Dial()
 			r.srvTr = pl.Transports[0]
+			r.srvConn = pl.Servers[0]
 			pl.Servers[0].Tap = func(b []byte) {
 				r.srvChunks = append(r.srvChunks, append([]byte{}, b[:min(len(b), 8)]...))
 				if strings.Contains(string(b), `"state":"established"`) {
@@ -1022,9 +1024,15 @@ func judge(prop string) func(x *harness.X, res *rt.Result) {
 				x.Failf("C14:not-closed:"+endClass(r, m), "handshake did not establish but the server never closed the connection (client saw no EOF within 45s of virtual time) %s", script())
 			}
 			for _, g := range res.Alive {
-				if strings.Contains(g.Name, "consumeTransports.func") || strings.Contains(g.Name, "receiveFromTransport") {
-					x.Failf("C14:goroutine-left:"+g.Name, "goroutine %s still serving the failed connection %s", g.Name, script())
+				// what legitimately lives on: the harness (main, the ListenAndServe caller) and the
+				// server's accept/consume loops (errgroup goroutines); anything else belongs to the connection
+				if g.Name == "main" || strings.HasPrefix(g.Name, "body.func") || g.Name == "Go.func" {
+					continue
 				}
+				x.Failf("C14:goroutine-left:"+g.Name, "goroutine %s (%s) is left behind by the failed handshake %s", g.Name, g.PendTag(), script())
+			}
+			if r.srvConn != nil && !r.srvConn.IsClosed() {
+				x.Failf("C14:server-socket-open:"+endClass(r, m), "the handshake did not establish but the server never closed its end of the connection %s", script())
 			}
 			if r.estCb != 0 || r.finCb != 0 {
 				x.Failf(fmt.Sprintf("C14:callbacks:est%d-fin%d:%s", r.estCb, r.finCb, endClass(r, m)), "handshake did not establish but Established fired %d times and Finished %d times %s", r.estCb, r.finCb, script())
